@@ -169,10 +169,19 @@ theorem xrefAndTrailer_table (x : XrefMap) (size : Nat) (tr : Dict) (tail : Byte
     (hsz : tr.get SIZE = some (.int (size : Int))) :
     ∃ table, xrefAndTrailer (writeXrefTable x size ++ (TRAILER_KW ++ (writeObj (.dict tr) ++ tail)))
         = .ok (table, size, tr) ∧
-      ∀ n, table.get n = if 1 ≤ n ∧ n < size then normalOf x n else none := by
+      (∀ n, table.get n = if 1 ≤ n ∧ n < size then normalOf x n else none) ∧
+      (table.map (·.1)).Nodup := by
   obtain ⟨table, hp, hget⟩ := xref_table_rt x size (TRAILER_KW ++ (writeObj (.dict tr) ++ tail)) hx hs
     (noDigit_trailer _)
-  refine ⟨table, ?_, hget⟩
+  have hnodup : (table.map (·.1)).Nodup := by
+    obtain ⟨table', hp', hn'⟩ := xref_table_rt_nodup x size (TRAILER_KW ++ (writeObj (.dict tr) ++ tail)) hx hs
+      (noDigit_trailer _)
+    rw [hp] at hp'
+    injection hp' with hp'
+    injection hp' with hp'
+    injection hp' with hp' _
+    rw [hp']; exact hn'
+  refine ⟨table, ?_, hget, hnodup⟩
   obtain ⟨w, hw⟩ := writeObj_dict_cons tr
   have hsp : space (TRAILER_KW ++ (writeObj (.dict tr) ++ tail)) = TRAILER_KW ++ (writeObj (.dict tr) ++ tail) := by
     simp only [TRAILER_KW, List.cons_append]
@@ -206,7 +215,8 @@ theorem load_xref_of_save_table (pre : Bytes) (d : SDoc) (out : Bytes) (d' : SDo
     ∃ xs table, getXrefStart out = some xs ∧ xs ≤ out.length ∧
       xrefAndTrailer (out.drop xs) = .ok (table, d.maxId + 1, d'.trailer) ∧
       (∀ n, table.get n = if 1 ≤ n ∧ n < d.maxId + 1 then normalOf (xmapOf pre d) n else none) ∧
-      (∀ n off g, table.get n = some (.normal off g) → HeaderAt out off n g) := by
+      (∀ n off g, table.get n = some (.normal off g) → HeaderAt out off n g) ∧
+      (table.map (·.1)).Nodup := by
   obtain ⟨hout, htr⟩ := saveFrom_table_eq pre d out d' hk h
   have hb := body_le_out pre d out d' h
   have hoff : OffsetsOk (bodyOf pre d) (xmapOf pre d) :=
@@ -216,9 +226,9 @@ theorem load_xref_of_save_table (pre : Bytes) (d : SDoc) (out : Bytes) (d' : SDo
   have e : out = bodyOf pre d ++ (writeXrefTable (xmapOf pre d) (d.maxId + 1)
       ++ (TRAILER_KW ++ (writeObj (.dict d'.trailer) ++ tail))) := by
     rw [hout, htr, ← htail]; simp only [List.append_assoc]
-  obtain ⟨table, hxt, hget⟩ := xrefAndTrailer_table (xmapOf pre d) (d.maxId + 1) d'.trailer tail hxok hmax hD
+  obtain ⟨table, hxt, hget, hnodup⟩ := xrefAndTrailer_table (xmapOf pre d) (d.maxId + 1) d'.trailer tail hxok hmax hD
     (by rw [htr, Dict.get_set_same]; simp)
-  refine ⟨(bodyOf pre d).length, table, startxref_found pre d out d' h hlen, hb, ?_, hget, ?_⟩
+  refine ⟨(bodyOf pre d).length, table, startxref_found pre d out d' h hlen, hb, ?_, hget, ?_, hnodup⟩
   · rw [e, List.drop_left]
     exact hxt
   · intro n off g hn
